@@ -13,8 +13,10 @@ import SaModel.Props.C01Refine
 /-
 C03 — every produced array is a well-formed Arrow array of the declared field.
 
-  C03_wfS                 toMarrow ext fields rows = ok arrs → one array per field, each `Spec.WFS` for its field and of
-                         `rows.length` rows (explicit assumptions on schema / rows / Ext: see the section header there)
+  C03_wfS                toMarrow ext fields rows = ok arrs → one array per field, each `Spec.WFS` (structurally valid) for its
+                         field and of `rows.length` rows (explicit assumptions on schema / rows / Ext: see the section header
+                         there).  TYPE EQUALITY (`Spec.WF = WFS ∧ typeOf a = f.dataType`): `Props.C01.C03_wf'`
+                         (Props/C01Obs.lean) and Props/C03Typed.lean.
   toMarrow_decode_state  the arrays decode to exactly the columns the final builder state holds (every family)
   (… which are the documented rows `interpRow` of the records: `Props.C01.C01_build_decode`, Props/C01.lean)
 built from the physical layer proved in Lemmas/{Bits,Utf8,FloatBounds,C03*}.lean — `finish_decodeP`/`finish_decode` (the
@@ -499,8 +501,10 @@ With agent-refine's theorems merged (`Build.push_takeRest`, `Props.C01.runRows_r
 (the former size assumption `ViewSmall` is now derived: the view builders refuse lengths / offsets beyond `i32::MAX`, the
 state invariant `WFB` carries the buffer bound — `Build.WFB_small`) -/
 
-/-- **C03.**  Every array `to_marrow` returns is a well-formed array of its field (`Spec.WFS`: data type equal to the
-field's including child names / nullability / metadata / parameters; bitmap present iff nullable with exactly ⌈len/8⌉
+/-- **C03, structural half** (`Safe` version; the headline with type equality is `Props.C01.C03_wf'`, Props/C01Obs.lean).
+Every array `to_marrow` returns is a structurally valid array of its field (`Spec.WFS`: data type compatible with the
+field's — child names / nullability / metadata / parameters, EXCEPT the union mode and the nullability / metadata of a Map's
+entries field, which only `Spec.WF` = `WFS ∧ typeOf a = f.dataType` compares; bitmap present iff nullable with exactly ⌈len/8⌉
 bytes and clear padding; offsets start at 0, never decrease, end at the child length and stay within i32/i64; fixed-size
 child lengths; type ids, dense offsets and dictionary keys in range; string data valid UTF-8; values within their
 physical range), there is exactly one array per field, and every array has `rows.length` rows. -/
